@@ -191,6 +191,7 @@ where
                 rx,
                 connector,
                 Some(connection),
+                false,
                 &inner.config,
             );
         }
@@ -201,7 +202,15 @@ where
         if inner.connecting.contains(&token) {
             trace!("connection in progress elsewhere, will wait");
             connector = None;
-            Checkout::new(token, self.as_ref(), rx, connector, None, &inner.config)
+            Checkout::new(
+                token,
+                self.as_ref(),
+                rx,
+                connector,
+                None,
+                false,
+                &inner.config,
+            )
         } else {
             if multiplex {
                 // Only block new connection attempts if we can multiplex on this one.
@@ -209,7 +218,15 @@ where
                 inner.connecting.insert(token);
             }
             trace!("connecting to host");
-            Checkout::new(token, self.as_ref(), rx, connector, None, &inner.config)
+            Checkout::new(
+                token,
+                self.as_ref(),
+                rx,
+                connector,
+                None,
+                multiplex,
+                &inner.config,
+            )
         }
     }
 }
